@@ -35,6 +35,10 @@ namespace Givaro {
     std::istream &ModularExtended<_Element>::read (std::istream &is)
     {
         is >> _p;
+        _invp = (Element)1/_p;
+        _negp = -_p;
+        _lp = (Residu_t)_p;
+        assign(const_cast<Element&>(mOne), _p - (Element)1);
         return is;
     }
 
